@@ -4,6 +4,7 @@ package decorator
 // Every random choice derives from the one PRNG; each scenario records its own sub-seed.
 
 import (
+	"encoding/json"
 	"fmt"
 
 	"k8s.io/apimachinery/pkg/runtime"
@@ -73,7 +74,7 @@ func c16Satisfy(m c16J, s *c16Sel) {
 
 var c16LabelKeys = []string{"app", "tier", "managed", "env", "skip", "deco"}
 var c16AnnotKeys = []string{"note", "decorate", "team", "optout", "deco-note"}
-var c16Values = []string{"a", "b", "yes", "prod", "x"}
+var c16Values = []string{"a", "b", "yes", "prod", "x", ""}
 
 func (g *c16Gen) randomMap(keys []string, n int) c16J {
 	m := c16J{}
@@ -95,7 +96,11 @@ func (g *c16Gen) responseMap(cur c16J, keys []string) map[string]*string {
 	for i := 0; i < n; i++ {
 		k := r.Pick(keys)
 		curv, has := cur[k].(string)
-		switch r.Intn(5) {
+		switch r.Intn(7) {
+		case 5:
+			out["mark-"+k] = c16Str("") // a marker-style key: new, value ""
+		case 6:
+			out[k] = c16Str("") // "" over a value, over "", or as a new key
 		case 0:
 			out[k] = nil // delete (present or absent)
 		case 1:
@@ -320,6 +325,22 @@ func (g *c16Gen) unmarked(sc *c16Scenario, rule c16RuleSpec, all bool) {
 	if all || r.Chance(1, 3) {
 		mk("u-otherowner", "uid-somebody", c16J{c16Marker: sc.Ctl.Name})
 		sc.Features = append(sc.Features, "lookalike-other-owner")
+	}
+	if all || r.Chance(1, 2) {
+		// (e) own marker, controlled by another object, the target listed as a plain (non-controller) owner
+		mk("u-plainowner", "uid-somebody", c16J{c16Marker: sc.Ctl.Name})
+		last := sc.Setup[len(sc.Setup)-1].Data["metadata"].(c16J)
+		plain := c16J{"apiVersion": sc.Target["apiVersion"], "kind": sc.Target["kind"], "name": "t1", "uid": c16TargetUID}
+		if r.Bool() {
+			plain["controller"] = false
+		}
+		refs := last["ownerReferences"].(c16A)
+		if r.Bool() {
+			last["ownerReferences"] = append(c16A{plain}, refs...)
+		} else {
+			last["ownerReferences"] = append(refs, plain)
+		}
+		c16AddFeature(sc, "lookalike-plain-owner-ref")
 	}
 	sc.Features = append(sc.Features, "unmarked-controlled-lookalike")
 }
@@ -1062,6 +1083,123 @@ func (g *c16Gen) dying(i int, seed uint64) *c16Scenario {
 	return sc
 }
 
+// nulls: the hook's attachments list holds null entries (alone, first, last, between valid ones), for namespaced
+// and cluster-scoped targets, answered by the sync hook or (target pending deletion) by the finalize hook
+func (g *c16Gen) nulls(i int, seed uint64) *c16Scenario {
+	r := g.r
+	sc := g.basic("nulls", i, seed)
+	var rule c16RuleSpec
+	for _, ru := range sc.Ctl.Rules {
+		if ru.Kind == sc.Target["kind"] {
+			rule = ru
+		}
+	}
+	lm := c16Meta(sc.Target, "labels")
+	c16Satisfy(lm, rule.Labels)
+	am := c16Meta(sc.Target, "annotations")
+	c16Satisfy(am, rule.Annotations)
+	md := sc.Target["metadata"].(map[string]interface{})
+	md["labels"], md["annotations"] = lm, am
+	a := sc.Ctl.Attachments[0]
+	v1, v2 := g.attachment(a, rule, "n0", 1), g.attachment(a, rule, "n1", 1)
+	var list c16A
+	shape := r.Intn(6)
+	switch shape {
+	case 0:
+		list = c16A{nil}
+	case 1:
+		list = c16A{nil, v1}
+	case 2:
+		list = c16A{v1, nil}
+	case 3:
+		list = c16A{v1, nil, v2}
+	case 4:
+		list = c16A{nil, nil}
+	default:
+		list = c16A{nil, v1, nil, v2, nil}
+	}
+	c16AddFeature(sc, fmt.Sprintf("null-attachments-shape%d", shape))
+	body, _ := json.Marshal(c16J{"attachments": list, "labels": c16J{"deco-null": "1"}})
+	h := c16HookProgram{Kind: "raw", RawBody: string(body)}
+	sc.Hook2 = nil
+	sc.Setup = nil
+	sc.Warmup = 0
+	sc.Hook = h
+	if rule.Namespaced {
+		c16AddFeature(sc, "null-attachments-namespaced-target")
+	} else {
+		c16AddFeature(sc, "null-attachments-cluster-target")
+	}
+	sc.Ctl.NoSync = false
+	if r.Chance(1, 3) {
+		// the finalize hook gives the answer: the target is pending deletion and holds our finalizer
+		sc.Ctl.Finalize = true
+		fs, _ := md["finalizers"].([]interface{})
+		md["finalizers"] = append(fs, "metacontroller.io/decoratorcontroller-"+sc.Ctl.Name)
+		ref := c16TargetRef(sc.Target)
+		ref.Op = "deleting"
+		sc.Rounds = []c16RoundSpec{{PreOps: []c16ExtOp{ref}}, {}}
+		c16AddFeature(sc, "null-attachments-finalize-hook")
+	} else {
+		sc.Ctl.Finalize = r.Chance(1, 4)
+		sc.Rounds = []c16RoundSpec{{}, {}}
+		c16AddFeature(sc, "null-attachments-sync-hook")
+	}
+	return sc
+}
+
+// retries: the same work item fails several times in a row (the hook answers 5xx, or the API server 500 on the
+// target write / an attachment request) before it succeeds; every step goes through the real processNextWorkItem
+func (g *c16Gen) retries(i int, seed uint64) *c16Scenario {
+	r := g.r
+	sc := g.basic("retries", i, seed)
+	var rule c16RuleSpec
+	for _, ru := range sc.Ctl.Rules {
+		if ru.Kind == sc.Target["kind"] {
+			rule = ru
+		}
+	}
+	lm := c16Meta(sc.Target, "labels")
+	c16Satisfy(lm, rule.Labels)
+	am := c16Meta(sc.Target, "annotations")
+	c16Satisfy(am, rule.Annotations)
+	md := sc.Target["metadata"].(map[string]interface{})
+	md["labels"], md["annotations"] = lm, am
+	sc.Hook2 = nil
+	sc.Warmup = 0
+	sc.Ctl.NoSync = false
+	if sc.Hook.Labels == nil {
+		sc.Hook.Labels = map[string]*string{}
+	}
+	delete(sc.Hook.Labels, "managed")
+	sc.Hook.Labels["deco-retry"] = c16Str("r")
+	if r.Chance(1, 3) {
+		sc.Hook.Resync = float64(10 * (1 + r.Intn(3)))
+	}
+	fails := 1 + r.Intn(3)
+	c16AddFeature(sc, fmt.Sprintf("fails-in-a-row-%d", fails))
+	sc.Rounds = nil
+	if r.Bool() {
+		sc.Hook.FailFirst = fails
+		sc.Hook.FailCode = []int{500, 502, 503}[r.Intn(3)]
+		c16AddFeature(sc, "retry-hook-5xx")
+		for j := 0; j <= fails; j++ {
+			sc.Rounds = append(sc.Rounds, c16RoundSpec{})
+		}
+	} else {
+		f := c16FaultOn{Verb: "update", Kind: sc.Target["kind"].(string), AfterHook: true, Code: 500, Reason: "InternalError"}
+		if len(sc.Hook.Attachments) > 0 && r.Bool() {
+			f = c16FaultOn{Verb: "create", Kind: sc.Hook.Attachments[0]["kind"].(string), Code: 500, Reason: "InternalError"}
+		}
+		c16AddFeature(sc, "retry-api-500")
+		for j := 0; j < fails; j++ {
+			sc.Rounds = append(sc.Rounds, c16RoundSpec{FaultOn: []c16FaultOn{f}})
+		}
+		sc.Rounds = append(sc.Rounds, c16RoundSpec{})
+	}
+	return sc
+}
+
 var c16RawBodies = []string{
 	`null`, `[]`, `"text"`, `not json`, `{}`,
 	`{"labels":{"a":1}}`, `{"labels":["a"]}`, `{"labels":{"a":true}}`, `{"labels":"x"}`,
@@ -1280,6 +1418,24 @@ func c16Corpus() []*c16Scenario {
 		// the response sets the label the selector forbids: the next sync no longer selects the target
 		Hook:   c16HookProgram{Kind: "const", Labels: map[string]*string{"skip": c16Str("now")}, Annotations: map[string]*string{"team": c16Str("x")}},
 		Rounds: []c16RoundSpec{{}, {}}})
+	// 10b. a marker-style label: a new key whose value is the empty string must be added (and is a change);
+	//      "" over a value overwrites; "" over "" changes nothing
+	out = append(out, &c16Scenario{Family: "corpus", Features: []string{"corpus-empty-string-value"},
+		Ctl:    c16CtlSpec{Name: "corpus10b", Rules: []c16RuleSpec{podRule}},
+		Target: pod(c16J{"managed": "yes", "full": "x", "blank": ""}, c16J{"decorate": "yes"}, nil),
+		Hook:   c16HookProgram{Kind: "const", Labels: map[string]*string{"marker": c16Str("")}},
+		Hook2:  &c16HookProgram{Kind: "const", Labels: map[string]*string{"marker": c16Str(""), "blank": c16Str(""), "full": c16Str("")}, Annotations: map[string]*string{"seen": c16Str("")}},
+		Rounds: []c16RoundSpec{{}, {}}})
+	// 10c. null attachment entries for a cluster-scoped and a namespaced target
+	for j, tgt := range []c16J{cw(c16J{"app": "a"}, nil), pod(c16J{"managed": "yes"}, c16J{"decorate": "yes"}, nil)} {
+		ru, att, body := cwRule, c16AttClusterGadget, `{"attachments":[null,{"apiVersion":"ctl.example.com/v1","kind":"ClusterGadget","metadata":{"name":"n0"},"spec":{"size":1}},null]}`
+		if j == 1 {
+			ru, att, body = podRule, c16AttConfigMap, `{"attachments":[null,{"apiVersion":"v1","kind":"ConfigMap","metadata":{"name":"n0"},"data":{"k":"v"}},null]}`
+		}
+		out = append(out, &c16Scenario{Family: "corpus", Features: []string{"corpus-null-attachments"},
+			Ctl:    c16CtlSpec{Name: fmt.Sprintf("corpus10c%d", j), Rules: []c16RuleSpec{ru}, Attachments: []c16AttSpec{att}},
+			Target: tgt, Hook: c16HookProgram{Kind: "raw", RawBody: body}, Rounds: []c16RoundSpec{{}, {}}})
+	}
 	// 11. the update strategy of the attachment rule decides what happens to a differing attachment:
 	//     core-group kind (ConfigMap) and named-group kind (Gadget) under InPlace, Recreate and OnDelete;
 	//     a0 stays, a1 changes, a2 is no longer desired
@@ -1310,6 +1466,17 @@ func c16GenerateScenarios(prop string, seed uint64, n int, adv bool) []*c16Scena
 	if prop == "C06d" {
 		strategySlots = map[int]bool{0: true, 1: true, 2: true, 3: true, 4: true, 5: true, 7: true, 10: true}
 	}
+	extra := map[int]string{6: "nulls", 9: "retries"}
+	switch prop {
+	case "C13d":
+		extra = map[int]string{0: "nulls", 1: "nulls", 3: "nulls", 5: "nulls", 6: "nulls", 7: "hostile", 9: "hostile", 10: "nulls", 2: "hostile"}
+		strategySlots = map[int]bool{}
+	case "C12d":
+		extra = map[int]string{0: "retries", 1: "retries", 3: "retries", 5: "retries", 6: "retries", 7: "hostile", 9: "retries", 10: "faults", 2: "faults"}
+		strategySlots = map[int]bool{}
+	case "C03d":
+		extra = map[int]string{0: "shared", 1: "shared", 3: "shared", 5: "shared", 6: "nulls", 10: "shared"}
+	}
 	// the C10 / C17 legs look at the end of a target's life: weight the dying-target family
 	dyingSlots := map[int]bool{8: true}
 	if prop == "C10d" || prop == "C17d" {
@@ -1327,8 +1494,25 @@ func c16GenerateScenarios(prop string, seed uint64, n int, adv bool) []*c16Scena
 			pick = 100
 		} else if !adv && dyingSlots[pick] {
 			pick = 101
+		} else if fam, ok := extra[pick]; ok && !adv {
+			switch fam {
+			case "nulls":
+				pick = 102
+			case "retries":
+				pick = 103
+			case "hostile":
+				pick = 14
+			case "faults":
+				pick = 12
+			case "shared":
+				pick = 7
+			}
 		}
 		switch pick {
+		case 102:
+			sc = g.nulls(i, s)
+		case 103:
+			sc = g.retries(i, s)
 		case 100:
 			sc = g.strategy(i, s)
 		case 101:
